@@ -347,14 +347,52 @@ def _is_flaky(e):
     return any(_is_flaky(x) for x in getattr(e, 'exceptions', ()) or ())
 
 
+class CallTimeout(Exception):
+    """A call into the library did not return within CALL_LIMIT seconds (thousands of times the usual duration of a
+    case): for the properties that promise a result - termination of the parsers, totality of the rewriting functions -
+    that is a failure like any other exception; it also keeps a check from stalling on code that loops."""
+
+
+CALL_LIMIT = float(os.environ.get('VERIF_CALL_LIMIT', '120'))
+_timer = {'armed': False}
+
+
+def _on_alarm(signum, frame):
+    raise CallTimeout(f'no result within {CALL_LIMIT:g} s')
+
+
+def arm_call_limit():
+    """Start the per-call limit (main thread only, not nested). Returns whether this call armed it."""
+    import signal
+    import threading
+
+    if _timer['armed'] or CALL_LIMIT <= 0 or threading.current_thread() is not threading.main_thread():
+        return False
+    signal.signal(signal.SIGALRM, _on_alarm)
+    signal.setitimer(signal.ITIMER_REAL, CALL_LIMIT)
+    _timer['armed'] = True
+    return True
+
+
+def disarm_call_limit(armed):
+    if armed:
+        import signal
+
+        signal.setitimer(signal.ITIMER_REAL, 0)
+        _timer['armed'] = False
+
+
 def guarded(fn, *args, **kwargs):
     """Call library code; return ('ok', value) or ('exc', exception)."""
+    armed = arm_call_limit()
     try:
         return ('ok', fn(*args, **kwargs))
     except RecursionError as e:
         return ('exc', e)
     except Exception as e:  # noqa
         return ('exc', e)
+    finally:
+        disarm_call_limit(armed)
 
 
 def innermost_hpl_frame(exc):
